@@ -24,7 +24,8 @@ var (
 	tMapS  = m.MapOf(m.TStr)
 	tMapA  = m.MapOf(tNums)
 	tAnys  = m.ArrOf(m.TAny)
-	pool   = []*m.Type{m.TNum, m.TStr, m.TBool, tNums, tNums2, tBools, tStrs, tMapN, tMapB, tMapS, tMapA, m.TAny, tAnys}
+	tMaps  = m.ArrOf(tMapN)
+	pool   = []*m.Type{m.TNum, m.TStr, m.TBool, tNums, tNums2, tBools, tStrs, tMapN, tMapB, tMapS, tMapA, m.TAny, tAnys, tMaps, tMaps}
 )
 
 type vinfo struct {
@@ -464,7 +465,7 @@ func TestProp(t *testing.T) {
 		for i := 0; i < nstart; i++ {
 			ty := pool[rapid.IntRange(0, len(pool)-1).Draw(t, "type")]
 			if i == 0 { // always at least one array
-				ty = []*m.Type{tNums, tNums2, tBools, tStrs, tAnys, tAnys}[rapid.IntRange(0, 5).Draw(t, "arrtype")]
+				ty = []*m.Type{tNums, tNums2, tBools, tStrs, tAnys, tAnys, tMaps}[rapid.IntRange(0, 6).Draw(t, "arrtype")]
 			}
 			if i == 1 { // and a num
 				ty = m.TNum
